@@ -210,6 +210,15 @@ bus_dispatch_matches (BusTransaction *transaction,
     return TRUE;
 }
 
+#ifdef DBUS_VERIF_SIM
+/* Verification hook (off by default): an observation-only callback telling an
+ * in-process simulation harness the order in which the bus processes
+ * messages.  It must not, and cannot, alter behaviour. */
+void (*_bus_verif_probe) (const char     *what,
+                          DBusConnection *connection,
+                          DBusMessage    *message) = NULL;
+#endif
+
 static DBusHandlerResult
 bus_dispatch (DBusConnection *connection,
               DBusMessage    *message)
@@ -226,6 +235,11 @@ bus_dispatch (DBusConnection *connection,
   transaction = NULL;
   addressed_recipient = NULL;
   dbus_error_init (&error);
+
+#ifdef DBUS_VERIF_SIM
+  if (_bus_verif_probe != NULL)
+    _bus_verif_probe ("dispatch", connection, message);
+#endif
 
   context = bus_connection_get_context (connection);
   _dbus_assert (context != NULL);
